@@ -332,6 +332,8 @@ def gen_message(rng):
         if rng.random() < 0.3:
             t = b'.' + t[1:] if rng.random() < 0.5 else b'.' + t
         pre = rng.choice([b'', b'Subject: x\r\n\r\n', b'Subject: x\r\n', b'\r\n', b'a\n\n'])
+        if rng.random() < 0.4:     # an 8bit octet in an earlier line: need_recode()'s shortcut for the rest of the message
+            pre += rng.choice([b'\xe4\r\n', b'caf\xc3\xa9\n', b'\xff\r\n\r\n', b'x\r\n\x80y\r\n'])
         return pre + t + rng.choice([b'', b'', b'\r\n', b'\n', b'\r', b'\r\nnext'])
     if s < 0.65:      # header + body that needs quoted-printable
         kinds = rng.choice([['8bit'], ['8bit', 'dots', 'blanks'], ['ctl'], ['a', 'words'], ['any'], ['blanks', 'dots']])
